@@ -400,6 +400,12 @@ class Ctx:
     def coq_eval(self, name, body, imports, timeout=600):
         """Evaluate `body` (vernacular) in a scratch file; returns (rc, stdout)."""
         path = os.path.join(self.workdir, name + '.v')
+        # a time limit is meant for an idle 16-core machine: stretch it (at most 4x) when the machine is overloaded, so that
+        # a slow evaluation under load is not reported as a broken correspondence
+        try:
+            timeout = int(timeout * min(4.0, max(1.0, os.getloadavg()[0] / 16.0)))
+        except OSError:
+            pass
         with open(path, 'w') as f:
             f.write("From RV Require Import %s.\n" % ' '.join(imports))
             f.write(body)
